@@ -348,8 +348,17 @@ def check(pid, tier, seed, plan):
         sched = fmt_schedule(r["trace"])
         run.samples.append({"scenario": name, "threads": r["spec"], "K": r["K"], "schedule": sched[:60]})
         try:
-            test, env = plan["replay"](r)
-            ok, observed, events = native.run(test, env)
+            cands = plan["replay"](r)
+            if isinstance(cands, tuple):
+                cands = [cands]
+            tried = []
+            for test, env in cands:
+                ok, observed, events = native.run(test, env)
+                tried.append("%s: %s" % (test, observed))
+                if ok:
+                    break
+            if not ok and len(tried) > 1:
+                observed = " | ".join(tried)
         except Exception as e:
             ok, observed, events = False, "replay machinery failed: %s" % str(e)[-400:], ""
         if ok:
